@@ -15,11 +15,13 @@ from .c03 import contents_stores, is_attr, same_object
 from . import targets
 from .. import uscan
 
-UNIT_CATS = ('convert-from-unit', 'sum-mix', 'add-units', 'to-storage', 'from-storage', 'qstr', 'storage-label', 'round-then-scale',
+UNIT_CATS = ('convert-from-unit', 'sum-mix', 'add-units', 'to-storage', 'from-storage', 'qstr', 'qstr-format', 'storage-label', 'round-then-scale',
              'store-volume', 'store-contents', 'compare-units', 'std-format')
 
 
 def run(ctx):
+    from .configtime import precision_zero_is_a_value as _prec0
+    _prec0(ctx, 'C10.R2', classes=('Container', 'Plate', 'PlateSlicer'))
     from . import unitspec as _us
     _us.api_verified(ctx, 'C10.R1')
     n = pairing(ctx, 'C10.R1')
